@@ -1268,7 +1268,15 @@ def _immutable_recv(t):
 _CACHE: dict = {}
 
 
+PRECISE_DEFAULT = False      # thorough tier: full path sensitivity wherever the state cap allows
+
+
 def analyze(model: Model, fi: FuncInfo, bindings: dict | None = None, trace=None, trace_key=None, merge=True) -> Result:
+    if PRECISE_DEFAULT and merge:
+        try:
+            return analyze(model, fi, bindings, trace, trace_key, merge=False)
+        except AnalysisError:
+            pass
     key = (id(model), fi.qual, fi.backend, tuple(sorted((bindings or {}).items())), trace_key, merge)
     if trace is not None and trace_key is None:
         return Analyzer(model, fi, bindings, trace, merge).run()
